@@ -60,11 +60,48 @@ def _stream(infos) -> list[tuple]:
     return [(id(i.node), id(i.parent), i.field.name, i.findex) for i in infos]
 
 
-def make_harness(shapes: list[Any], shared: bool = False):
+_MI_CACHE: dict[str, Any] = {}
+
+
+def _mi_prepare(e, firsts=("MNamed", "MBodied", "MFunc", "MEmpty")):
+    """Fresh classes with multiple inheritance / empty bodies; which class of the family is
+    used first is a selector (the generated accessors are installed on first use)."""
+    from models import classgen as G
+
+    first = e.pick(list(firsts), "class_used_first")
+    # classes are re-created whenever the selector changes (depth-first order keeps equal values
+    # together); on every path the chosen class is used first and then all others in a fixed
+    # order, which is idempotent, so a path never depends on the paths before it
+    if _MI_CACHE.get("first") != first:
+        tag, C = G.make_mi_classes()
+        _MI_CACHE.clear()
+        _MI_CACHE.update(first=first, tag=tag, C=C)
+    tag, C = _MI_CACHE["tag"], _MI_CACHE["C"]
+    for k, c in C.items():
+        CLASSES[f"{k}{tag}"] = c
+    for k in [first] + sorted(C):
+        inst = C[k]()
+        list(inst.get_child_nodes()); list(inst.get_child_nodes_with_field()); list(inst.iter_child_fields()); list(inst.get_properties())  # noqa: E702
+    L = lambda: R("VLeaf")  # noqa: E731
+    F, E_, O = f"MFunc{tag}", f"MEmpty{tag}", f"MOverride{tag}"
+    shapes = [
+        R(F, {"label": 1}, name_kid=L(), body=(L(), L())),
+        R(F, {}, name_kid=None, body=(R(E_, name_kid=L()), R(F, name_kid=L(), body=(L(),)))),
+        R("VMany", items=(R(f"MNamed{tag}", name_kid=L()), R(F, name_kid=L(), body=(L(),)), R(O, name_kid=L()))),
+        R(E_, {"label": 2}, name_kid=R(f"MBodied{tag}", body=(L(), L()))),
+    ]
+    return [number(x) for x in shapes], {"class_used_first": first}
+
+
+def make_harness(shapes: list[Any], shared: bool = False, prepare=None):
     def harness(e):
         reset_all()
-        shape_no = e.choice(len(shapes), "shape")
-        recipe = shapes[shape_no]
+        extra_info: dict[str, Any] = {}
+        nonlocal_shapes = shapes
+        if prepare is not None:
+            nonlocal_shapes, extra_info = prepare(e)
+        shape_no = e.choice(len(nonlocal_shapes), "shape")
+        recipe = nonlocal_shapes[shape_no]
         root = build(recipe, {} if shared else None)
         positions = T.all_positions(recipe, root)
         index = {}
@@ -91,7 +128,7 @@ def make_harness(shapes: list[Any], shared: bool = False):
         o_prune = (lambda pos: bit(pbits, T.key(pos), "prune")) if with_prune else (lambda pos: False)
         o_filter = (lambda pos: bit(fbits, T.key(pos), "filter")) if with_filter else (lambda pos: True)
         mode = e.pick(["dfs", "bfs", "gather", "accessors"], "mode")
-        scenario = {"tree": describe(recipe), "mode": mode, "with_prune": with_prune, "with_filter": with_filter, "shared": shared}
+        scenario = {"tree": describe(recipe), "mode": mode, "with_prune": with_prune, "with_filter": with_filter, "shared": shared, **extra_info}
         falsy = T.has_falsy_single(recipe)
 
         def explain(got, want, what):
@@ -165,7 +202,7 @@ def make_harness(shapes: list[Any], shared: bool = False):
                     if falsy and got1 == d1 and got2 == d1 and got3 == d3:
                         e.fail("falsy-single-child-skipped:accessors", scenario=scenario)
                     e.fail("stream-mismatch:accessors", scenario=scenario)
-        e.distinct((shape_no, mode, len(pbits), len(fbits)))
+        e.distinct((shape_no, mode, len(pbits), len(fbits), tuple(extra_info.values())))
         return scenario
 
     return harness
@@ -196,6 +233,8 @@ def spec(tier: str, seed: int) -> Spec:
         fams.append(Family(f"shapes[{k}:{k+chunk}]", make_harness(shapes[k : k + chunk]), variables="lazy: prune/filter bit per position, bottom_up, exact_type; selector: shape, mode, gather classes"))
     fams.append(Family("falsy-single", make_harness(_falsy_shapes()), variables="as above; trees containing a falsy node class"))
     fams.append(Family("shared-object", make_harness(_shared_shapes(), shared=True), variables="as above; one node object stored at two positions"))
+    for first in ("MNamed", "MBodied", "MFunc", "MEmpty"):
+        fams.append(Family(f"multiple-inheritance-first-{first}", make_harness([], prepare=lambda e, _f=first: _mi_prepare(e, (_f,))), variables="as above; freshly created classes with multiple inheritance and empty bodies; the class used first is fixed per family"))
     return Spec(
         families=fams,
         functions=FUNCTIONS,
